@@ -92,6 +92,26 @@ func newPitSys(strategy string, cs bool, fib string) *pitSys {
 			}
 		}
 	})
+	// NextHopFaceId that the forwarder must refuse: a face that does not exist, and the arrival
+	// face itself. The Interest is dropped, but whatever PIT state it created must still drain.
+	for _, v := range []struct {
+		label string
+		nh    uint64
+	}{{"missing", 99}, {"self", fwsim.L1}} {
+		v := v
+		add(fmt.Sprintf("I(f1,/a/b,n1,200ms,nexthop=%s)", v.label), func(in *pitInst) {
+			nh := v.nh
+			in.sim.Interest(fwsim.L1, fwsim.InterestSpec{Name: "/a/b", Nonce: fwsim.U32(1), Lifetime: fwsim.Dur(200 * time.Millisecond)}, fwsim.LP{NextHopFaceID: &nh})
+			k := entryKey("/a/b", false, false, "")
+			for _, e := range in.sim.Dump().Pit {
+				if entryKey(e.Name, e.CanBePrefix, e.MustBeFresh, e.Hint) == k {
+					if dl := in.sim.Now().Add(200 * time.Millisecond); dl.After(in.deadline[k]) {
+						in.deadline[k] = dl
+					}
+				}
+			}
+		})
+	}
 	// a burst of retransmissions with fresh nonces: every one moves the previous nonce to the dead
 	// nonce list, so >100 records fall due in the same reaper tick (the reaper removes <=100 per tick)
 	add("Burst(f1,/a/b,103 nonces,200ms)", func(in *pitInst) {
